@@ -81,6 +81,43 @@ def h_dt(f, N, sem, io, mode, defs=None):
     return body
 
 
+def h_obj(f, N, sem, mio, mode):
+    """object-valued signal: the variables of f are the fields x, y of ONE variable m of a user type (import_module + declare_var);
+    the io type is declared for m and holds for every field"""
+    f = T(f)
+    vs = sorted(variables(f))
+
+    def ren(g):
+        g = T(g)
+        if g[0] == 'var':
+            return ('var', 'm.' + g[1])
+        return tuple(ren(c) if isinstance(c, tuple) else c for c in g)
+
+    def body(env):
+        import rtamt
+        from .. import objmsg
+        A = env.A
+        cls = rtamt.StlDiscreteTimeSpecification
+        s = cls(semantics=_sem(sem))
+        s.import_module('vf.objmsg', 'Msg')
+        s.declare_var('m', 'Msg')
+        if mio != 'default':
+            s.set_var_io_type('m', mio)
+        s.spec = 'out = ' + text(ren(f))
+        s.parse()
+        w = dt.trace(env, vs, N)
+        col = [objmsg.Msg(**{v: w[v][i] for v in vs}) for i in range(N)]
+        if mode == 'offline':
+            got = [p[1] for p in s.evaluate({'time': list(range(N)), 'm': col})]
+        else:
+            got = [s.update(i, [('m', col[i])]) for i in range(N)]
+        env.observe('out', got)
+        inputs = set(vs) if mio == 'input' else set()
+        want = rho(A, f, w, N, refsem.ia_pred(A, sem, inputs, set(vs) - inputs))
+        return dt.eq_list(A, 'ia-object', got, want)
+    return body
+
+
 def h_ct(f, ns, sem, io, mode, defs=None):
     spec_text, names, f = _modular(f, defs)
     vs = sorted(variables(f) | set(io))
@@ -222,6 +259,14 @@ def obligations(tier, rng):
                         continue
                     for mon in (['dt-offline'] if fut else ['dt-offline', 'dt-online']):
                         add(p, 'below', p, sem, io, mon)
+    # (2g) object-valued signals: predicates that read the fields of a variable of a user type; the io type is declared for the variable
+    for p in [('geq', X, C1), ('leq', ('add', X, Y), C1), ('implies', ('geq', X, ('const', 3.0)), ('geq', Y, ('const', 0.5))), ('once_t', ('lt', X, C1), 0, 1)]:
+        for sem in SEMS:
+            for mio in ('input', 'output', 'default'):
+                for mode in ('offline', 'online'):
+                    if quick and sem in ('input_vacuity', 'output_vacuity') and p[0] != 'geq':
+                        continue
+                    out.append(ob('C06', 'obj', 'dt-%s/%s/object-fields/m=%s/%s' % (mode, sem, mio, text(p)), f=p, N=N, sem=sem, mio=mio, mode=mode))
     # (2d) an io type that is set and then CHANGED before parse(): the last declaration counts
     P1 = ('implies', ('geq', X, ('const', 3.0)), ('geq', Y, ('const', 0.5)))
     for p in [P1, ('geq', ('sub', X, Y), C1), ('once_t', ('leq', Y, C1), 0, 1)]:
